@@ -1026,6 +1026,26 @@ func (d *driver) runCodec(w emitter, pid int, pr *proofProg) {
 			le[i], le[j] = le[j], le[i]
 		}
 		set(le)
+	case "scalar_pat":
+		// the final scalar agrees with r on its top limb; limbs 2, 1, 0 are each (limb of r) - 1 / equal / + 1, pattern number pr.Pos in base 3
+		field = lastField
+		v := new(big.Int)
+		pat := pr.Pos % 27
+		digs := []int{0, pat / 9, (pat / 3) % 3, pat % 3} // limb 3 equal
+		for i := 0; i < 4; i++ {
+			limb := new(big.Int).Rsh(modR, uint(64*(3-i)))
+			limb.And(limb, new(big.Int).SetUint64(^uint64(0)))
+			if i > 0 {
+				limb.Add(limb, big.NewInt(int64(digs[i]-1)))
+			}
+			v.Lsh(v, 64)
+			v.Add(v, limb)
+		}
+		le := v.FillBytes(make([]byte, 32))
+		for i, j := 0, 31; i < j; i, j = i+1, j-1 {
+			le[i], le[j] = le[j], le[i]
+		}
+		set(le)
 	case "scalar_r+1", "scalar_r-1", "scalar_max":
 		field = lastField
 		v := new(big.Int).Set(modR)
